@@ -257,6 +257,11 @@ def modify_classes_decision():
         n += 1
         if f({r for r, _ in pick}, escape=True) != {e for _, e in pick}:
             bad.append({"items": [r for r, _ in pick], "what": "not item-wise"})
+        # R7 (printing): escaped items written one after the other, in any order, list the union of what each lists
+        escs = [e for _, e in pick]
+        rnd.shuffle(escs)
+        if den("".join(escs)) != set().union(*[den(e) for e in escs]):
+            bad.append({"items": escs, "what": "R7: the joined items are read differently from their union"})
     return {"cases": n, "bad": bad[:10]}
 
 
